@@ -56,12 +56,15 @@ theorem itemsCallFrom_single (kw : Kw) (sub : VSub) (h : kw.itemsKind = .single)
   | cons x xs ih => rw [itemsCallFrom, ih, itemCall, h]; simp [hf]
 
 theorem R_tupleGo {fs : List (CallG V)} {gs : List D6.VF} {fa : CallG V} {ga : JVal → Bool}
-    (h : All2 RC fs gs) (ha : ∀ x, R (fa (.val x)) (ga x)) (xs : List JVal) (σ : D6.SSub)
-    (hadd : ∀ x, (match σ.addItems with | some f => f x | none => true) = ga x) :
+    (h : All2 RC fs gs) (ha : ∀ x, distinctKeys x = true → R (fa (.val x)) (ga x)) (xs : List JVal) (σ : D6.SSub)
+    (hadd : ∀ x, (match σ.addItems with | some f => f x | none => true) = ga x)
+    (hxs : ∀ x ∈ xs, distinctKeys x = true) :
     R (V.all id (tupleGo fs fa xs)) (D6.itemsOk.go σ gs xs) := by
   induction xs generalizing fs gs with
   | nil => cases h <;> exact R.pass
   | cons x xs ih =>
+    have hx := hxs x (List.mem_cons_self ..)
+    have hxs' : ∀ y ∈ xs, distinctKeys y = true := fun y hy => hxs y (List.mem_cons_of_mem _ hy)
     cases h with
     | nil =>
       simp only [tupleGo, V.all_cons, id, D6.itemsOk.go]
@@ -78,15 +81,15 @@ theorem R_tupleGo {fs : List (CallG V)} {gs : List D6.VF} {fa : CallG V} {ga : J
             have hga : f = ga := funext fun z => by have := hadd z; rw [hs] at this; exact this
             simp [D6.itemsOk.go, hga, hs]
       have hrest : R (V.all id (tupleGo [] fa xs)) (xs.all ga) := by
-        have := ih (fs := []) (gs := []) All2.nil
+        have := ih (fs := []) (gs := []) All2.nil hxs'
         rwa [hgo] at this
       have hgoal := hgo (x :: xs)
       simp only [D6.itemsOk.go] at hgoal
       rw [hgoal]
-      simpa using R.and (ha x) hrest
+      simpa using R.and (ha x hx) hrest
     | cons hr ht =>
       simp only [tupleGo, V.all_cons, id, D6.itemsOk.go]
-      exact R.and (hr.1 x) (ih ht)
+      exact R.and (hr.1 x hx) (ih ht hxs')
 
 theorem R_and_redundant {a b : V} {c : Bool} (hb : R b c) (ha : a ≠ .crash) (hr : a = .reject → b ≠ .pass) :
     R (a.and b) c := by
@@ -127,7 +130,8 @@ theorem R_array (kw : Kw) (k : SKw) (sub : VSub) (σ : D6.SSub) (xs : List JVal)
       | .single => σ.items.length = 1
       | .tuple => True)
     (hadd : AddlRel sub.addItems kw.addItemsB σ.addItems)
-    (hcont : OptRel RC sub.contains σ.contains) :
+    (hcont : OptRel RC sub.contains σ.contains)
+    (hxs : ∀ x ∈ xs, distinctKeys x = true) :
     R ((additionalItemsCheck kw sub xs).and ((containsCheck id sub xs).and (V.all id (itemsCallFrom vAlg kw sub 0 xs))))
       (D6.itemsOk k σ xs && D6.containsOk σ xs) := by
   have hc : R (containsCheck id sub xs) (D6.containsOk σ xs) := by
@@ -136,7 +140,7 @@ theorem R_array (kw : Kw) (k : SKw) (sub : VSub) (σ : D6.SSub) (xs : List JVal)
     generalize σ.contains = σc at hcont
     cases hcont with
     | none => exact R.pass
-    | some hr => exact R.any fun x _ => hr.1 x
+    | some hr => exact R.any fun x hx => hr.1 x (hxs x hx)
   cases hkind : k.itemsKind with
   | none =>
     have h1 : additionalItemsCheck kw sub xs = .pass := by simp [additionalItemsCheck, hk, hkind]
@@ -155,7 +159,7 @@ theorem R_array (kw : Kw) (k : SKw) (sub : VSub) (σ : D6.SSub) (xs : List JVal)
       have h2 := itemsCallFrom_single kw sub (hk.trans hkind) f fs hsub xs 0
       have h3 : D6.itemsOk k σ xs = xs.all g := by simp [D6.itemsOk, hkind, hsig]
       rw [h1, h2, h3, V.all_map]
-      have : R (V.all (fun x => f (.val x)) xs) (xs.all g) := R.all fun x _ => hr.1 x
+      have : R (V.all (fun x => f (.val x)) xs) (xs.all g) := R.all fun x hx => hr.1 x (hxs x hx)
       simpa [Bool.and_comm] using R.and hc this
   | tuple =>
     have hkt := hk.trans hkind
@@ -165,7 +169,7 @@ theorem R_array (kw : Kw) (k : SKw) (sub : VSub) (σ : D6.SSub) (xs : List JVal)
     -- the additional element and the specification's reading of `additionalItems`
     obtain ⟨ga, hga, hfa, hfalsy⟩ : ∃ ga : JVal → Bool,
         (∀ x, (match σ.addItems with | some f => f x | none => true) = ga x) ∧
-        (∀ x, R (additionalItemCall vAlg kw sub (.val x)) (ga x)) ∧
+        (∀ x, distinctKeys x = true → R (additionalItemCall vAlg kw sub (.val x)) (ga x)) ∧
         ((match sub.addItems with | some (t, _) => t | none => kw.addItemsB) = false →
           ∀ x, additionalItemCall vAlg kw sub (.val x) ≠ .pass) := by
       unfold additionalItemCall
@@ -174,11 +178,11 @@ theorem R_array (kw : Kw) (k : SKw) (sub : VSub) (σ : D6.SSub) (xs : List JVal)
       generalize σ.addItems = σa at hadd
       cases hadd with
       | absent =>
-        refine ⟨fun _ => true, fun _ => rfl, fun x => ?_, ?_⟩
+        refine ⟨fun _ => true, fun _ => rfl, fun x _ => ?_, ?_⟩
         · simp only [vAlg, trivialV]; exact R.pass
         · intro h; simp at h
       | lit =>
-        refine ⟨fun _ => kb, fun _ => rfl, fun x => ?_, ?_⟩
+        refine ⟨fun _ => kb, fun _ => rfl, fun x _ => ?_, ?_⟩
         · cases kb
           · simp only [vAlg, nothingV]; exact R.reject
           · simp only [vAlg, trivialV]; exact R.pass
@@ -187,11 +191,11 @@ theorem R_array (kw : Kw) (k : SKw) (sub : VSub) (σ : D6.SSub) (xs : List JVal)
           subst h
           simp [vAlg, nothingV]
       | @elem t f g hr hfal =>
-        refine ⟨g, fun _ => rfl, fun x => hr.1 x, ?_⟩
+        refine ⟨g, fun _ => rfl, fun x hx => hr.1 x hx, ?_⟩
         intro h x
         simp only at h
         exact hfal h x
-    have hB := R_tupleGo hitems hfa xs σ hga
+    have hB := R_tupleGo hitems hfa xs σ hga hxs
     have hAB : R ((additionalItemsCheck kw sub xs).and (V.all id (tupleGo sub.items (additionalItemCall vAlg kw sub) xs)))
         (D6.itemsOk.go σ σ.items xs) := by
       apply R_and_redundant hB
